@@ -769,6 +769,13 @@ def run(ctx):
     run_r6(ctx, r6)
     r10 = ctx.rule("C08-R10", "a matched alternative is committed: no error site is reachable both from the edge on which a consuming token matched and from the edge on which it fell through", floor=6)
     run_r10(ctx, r10)
+    # R11: where a number token ends is where the digit scanner says it ends: a lone '-' is not passed over (it is then
+    # reported where it stands, not swallowed as a 0 with the error turning up at a later token), the end offset is
+    # +1 per digit: the exact scanning behaviour and hand-over plumbing of C13, run here too
+    from . import c13
+    r11 = ctx.rule("C08-R11", "a number token ends where the scanners' documented behaviour says: +1 per digit, a lone minus sign is not passed over, fast and byte-wise paths agree (shared with C13-R3/R4)", floor=60)
+    c13.run_r3(ctx, r11)
+    c13.run_r4(ctx, r11)
     r9 = ctx.rule("C08-R9", "the line state itself: new starts at line 1 at the reader's position, line_at_offset(k) adds one line starting at position + k, give_up_at passes its position on, nothing else writes line / line_start", floor=9)
     run_r9(ctx, r9)
     from .c02 import run_r2 as c02_r2
